@@ -484,8 +484,12 @@ def _extract_unit(repo, unit, log, canary=False):
             expr = text[hits[occ].start(1):hits[occ].end(1)]
         else:
             st = hits[occ].start()
-            k = mm.index("(", st)
-            en = L.match_close(mm, k) + 1
+            if mm[hits[occ].end() - 1] == "{":
+                # statement slice: `match X {..}` / `if X {..}` up to its closing brace
+                en = L.match_close(mm, hits[occ].end() - 1) + 1
+            else:
+                k = mm.index("(", st)
+                en = L.match_close(mm, k) + 1
             expr = text[st:en]
         ulog.append({"rule": "R17-callsite-slice", "before": f"<{unit['path'][-1]}>", "after": expr})
         if unit.get("slice_template"):
